@@ -23,6 +23,8 @@ type FuncInfo struct {
 	Obj    *types.Func
 	File   string
 	Contract *Contract
+	Lit    *ast.FuncLit // set for a function literal verified as a unit ("f$k")
+	Parent *FuncInfo
 }
 
 type World struct {
